@@ -978,7 +978,7 @@ func c07Recover(c *Ctx) {
 		// typeFacts: the types T for which `val.(T)` is known to hold / not to hold at block blk
 		typeFacts := func(blk *ssa.BasicBlock, val ssa.Value, pol bool) map[string]bool {
 			out := map[string]bool{}
-			for _, fc := range flow.FactsAt(blk) {
+			for _, fc := range withPhiWays(flow.FactsAt(blk)) {
 				ex, ok := fc.Cond.(*ssa.Extract)
 				if !ok || ex.Index != 1 || fc.True != pol {
 					continue
